@@ -2,7 +2,7 @@
 PROP = {
     "title": "Casting changes only leaf types, predictably, and never yields NaN or Inf",
     "run_modules": ["RunCast"],
-    "n": {"quick": 2400, "thorough": 40000},
+    "n": {"quick": 2400, "thorough": 30000},
     "shards": {"quick": 16, "thorough": 64},
     "level": "proof",
     "technique": "Coq theorems over the executable model of cast / xmlToMapParser (decision table, relational parametricity of the decoder in the cast flag, NaN/Inf exclusion) + model/implementation correspondence by vm_compute (decoder on real token streams, cast through the verif hook, exhaustive sweep of the NaN/Inf spellings against strconv.ParseFloat) + Go-side oracle on NewMapXml, NewMapXmlSeq and Map.Json",
